@@ -19,6 +19,7 @@ type ctxState struct {
 	cause    IfaceV
 	hasDL    bool
 	deadline Value // time.Time
+	dlMs     int64 // the deadline on the virtual clock (unix ms); -1 when not concrete
 	key, val Value
 	kt       types.Type
 	children []*ctxState
@@ -71,6 +72,51 @@ func (in *Interp) ctxCancel(s *ctxState, err, cause IfaceV) {
 	}
 }
 
+// ctxSetDeadline gives s the deadline d unless the parent's is earlier (context.WithDeadline then
+// only derives a cancel context), and registers it with the virtual clock: once the clock has
+// reached a concrete deadline the context is done with DeadlineExceeded.
+func (in *Interp) ctxSetDeadline(fr *frame, s *ctxState, parent IfaceV, d Value) {
+	timeT := in.world.namedType("time", "Time")
+	if parent.T != nil {
+		if m := in.findMethod(parent.T, "Deadline"); m != nil {
+			r := in.callFn(fr, m, []Value{parent.V}, nil).(TupleV)
+			if ok, isT := r[1].(*Term); isT && ok == in.st.True {
+				before := in.callFn(fr, in.findMethod(timeT, "Before"), []Value{r[0], d}, nil).(*Term)
+				if in.branch(before) {
+					return
+				}
+			}
+		}
+	}
+	s.hasDL, s.deadline, s.dlMs = true, d, -1
+	if ms, ok := in.callFn(fr, in.findMethod(timeT, "UnixMilli"), []Value{d}, nil).(*Term); ok && ms.IsConst() {
+		s.dlMs = sx(ms.Val, ms.W)
+		list, _ := in.ext["ctx:deadlines"].([]*ctxState)
+		in.ext["ctx:deadlines"] = append(list, s)
+	}
+}
+
+func (in *Interp) clockNowMs() int64 {
+	k, _ := in.ext["now"].(int64)
+	off, _ := in.ext["clockOffsetMs"].(int64)
+	return int64(1704067200000) + k + off
+}
+
+// ctxExpire ends every deadline context whose deadline the virtual clock has reached.
+func (in *Interp) ctxExpire() {
+	list, _ := in.ext["ctx:deadlines"].([]*ctxState)
+	if len(list) == 0 {
+		return
+	}
+	now := in.clockNowMs()
+	for _, s := range list {
+		if s.err.T == nil && s.dlMs >= 0 && now >= s.dlMs {
+			e := in.deadlineExceededErr()
+			in.ctxCancel(s, e, e)
+		}
+	}
+}
+
 // ctxPollForeign lets every context derived from a harness context observe its parent.
 func (in *Interp) ctxPollForeign(fr *frame) {
 	list, _ := in.ext["ctx:foreign"].([]*ctxState)
@@ -90,6 +136,7 @@ func (in *Interp) ctxPollForeign(fr *frame) {
 }
 
 func (in *Interp) ctxErr(fr *frame, s *ctxState) IfaceV {
+	in.ctxExpire()
 	if s.err.T != nil {
 		return s.err
 	}
@@ -144,14 +191,14 @@ func init() {
 	}
 	n["context.WithDeadline"] = func(in *Interp, fr *frame, a []Value) Value {
 		s, v := in.newCtx(a[0].(IfaceV))
-		s.hasDL, s.deadline = true, a[1]
+		in.ctxSetDeadline(fr, s, a[0].(IfaceV), a[1])
 		return TupleV{v, cancelFunc(s, false)}
 	}
 	n["context.WithTimeout"] = func(in *Interp, fr *frame, a []Value) Value {
 		s, v := in.newCtx(a[0].(IfaceV))
 		now := in.callFn(fr, in.prog.ImportedPackage("time").Func("Now"), nil, nil)
 		add := in.findMethod(in.world.namedType("time", "Time"), "Add")
-		s.hasDL, s.deadline = true, in.callFn(fr, add, []Value{now, a[1]}, nil)
+		in.ctxSetDeadline(fr, s, a[0].(IfaceV), in.callFn(fr, add, []Value{now, a[1]}, nil))
 		return TupleV{v, cancelFunc(s, false)}
 	}
 	n["context.WithValue"] = func(in *Interp, fr *frame, a []Value) Value {
@@ -295,6 +342,7 @@ func init() {
 		if t > now {
 			in.ext["clockOffsetMs"] = off + (t - now)
 		}
+		in.ctxExpire()
 		return nil
 	}
 	intrinsics["verifSettle"] = func(in *Interp, fr *frame, a []Value) Value {
